@@ -277,6 +277,42 @@ def extract(repo):
     # channel_value_sat reaches only the value slot of the signer
     value_reaches_keys = len(re.findall(r"\bchannel_value_sat\b", b2)) != 1 or len(re.findall(r"\bchannel_value_sat\b", b1)) != 1
 
+    # ---- every place that (re-)derives a channel signer -------------------------------------
+    # call sites (not definitions) of the three derivation entry points over the non-test sources of
+    # vls-core: creation and restore go through the id, the sweep re-derives from the keys id that the
+    # descriptor carries (the one the channel's signer recorded)
+    import os
+    def nontest_sources(root):
+        out = {}
+        base = os.path.join(repo.rstrip("/"), root)
+        for d, _, fs in os.walk(base):
+            for f in fs:
+                if f.endswith(".rs") and not f.endswith("_tests.rs") and "test_utils" not in d and f != "test_utils.rs":
+                    rel = os.path.relpath(os.path.join(d, f), repo.rstrip("/"))
+                    out[rel] = re.split(r"#\[cfg\(test\)\]\s*mod\s+\w+\s*\{", strip_comments(open(os.path.join(d, f)).read()))[0]
+        return out
+    census = {}
+    for rel, txt in sorted(nontest_sources("vls-core/src").items()) + sorted(nontest_sources("vls-protocol-signer/src").items()):
+        for fn in ("get_channel_keys_with_id", "get_channel_keys_with_keys_id", "derive_channel_keys"):
+            n = len(re.findall(r"(?<!fn )\b" + fn + r"\s*\(", txt))
+            if n:
+                census[f"{rel}:{fn}"] = n
+    expected_census = {
+        "vls-core/src/node.rs:get_channel_keys_with_id": 2,                              # create, restore
+        "vls-core/src/signer/my_keys_manager.rs:get_channel_keys_with_keys_id": 2,       # from id, from keys id
+        "vls-core/src/signer/my_keys_manager.rs:derive_channel_keys": 2,                 # the two descriptor kinds
+    }
+    b7 = body_after(km, r"fn\s+derive_channel_keys\s*\(")
+    derive_is_from_keys_id = re.sub(r"\s+", " ", b7.strip()) == "self.get_channel_keys_with_keys_id(keys_id.clone(), channel_value_sat)"
+    b8 = body_after(km, r"pub\s+fn\s+spend_spendable_outputs\s*\(")
+    sweep_calls = [re.sub(r"\s+", " ", ",".join(args_of_call(b8[m.start():], r"self\.derive_channel_keys\s*\(")))
+                   for m in re.finditer(r"self\.derive_channel_keys\s*\(", b8)]
+    sweep_ok = (sweep_calls == ["descriptor.channel_value_satoshis,&descriptor.channel_keys_id"] * 2
+                and len(re.findall(r"keys_cache\s*\.\s*insert\(\s*descriptor\.channel_keys_id\s*,\s*signer\s*\)", b8)) == 2
+                and len(re.findall(r"let\s+signer\s*=", b8)) == 2
+                and not re.search(r"get_channel_keys_with", b8))
+    sweep_rederives_from_keys_id = bool(census == expected_census and derive_is_from_keys_id and sweep_ok)
+
     # ---- setup: ChannelStub::channel_keys_with_channel_value ----------------------------------
     b3 = body_after(chan, r"fn\s+channel_keys_with_channel_value\s*\(")
     a = args_of_call(b3, r"InMemorySigner::new\s*\(")
@@ -341,6 +377,10 @@ def extract(repo):
     lean += f"def createDerivesFromId : Bool := {b(create_from_id)}\n"
     lean += f"/-- new_from_persistence derives with get_channel_keys_with_id from the persisted id0 -/\n"
     lean += f"def restoreDerivesFromId0 : Bool := {b(restore_from_id0)}\n"
+    lean += f"/-- the only call sites that derive a channel signer are creation and restore (from the id) and the two\n"
+    lean += f"descriptor arms of spend_spendable_outputs, which re-derive with derive_channel_keys from the keys id the\n"
+    lean += f"descriptor carries; derive_channel_keys is get_channel_keys_with_keys_id -/\n"
+    lean += f"def sweepRederivesFromKeysId : Bool := {b(sweep_rederives_from_keys_id)}\n"
     lean += f"/-- every per-commitment point/secret request to the signer uses INITIAL_COMMITMENT_NUMBER - n -/\n"
     lean += f"def commitIndexIsInitialMinusN : Bool := {b(idx_ok)}\n"
     lean += "\nend VlsModel.Gen.KeyDeriveUse\n"
@@ -356,6 +396,8 @@ def extract(repo):
     facts["restore_derives_from_id0"] = bool(restore_from_id0)
     facts["channel_value_reaches_keys"] = bool(value_reaches_keys)
     facts["commit_index_exprs"] = sorted(set(idx_all))
+    facts["signer_derivation_call_sites"] = census
+    facts["sweep_rederives_from_keys_id"] = sweep_rederives_from_keys_id
     return {"KeyDeriveUse.lean": lean}, {"C18": {"facts": facts, "obligations": [
         "Gen.KeyDeriveUse: Native and Ldk channel_keys do not read basepoint_index, keys_id reads only channel id and seed base, "
         "setup copies the stub keys, creation and restore derive from id/id0 (theorems C18_gen_*)"]}}
